@@ -3,10 +3,11 @@
    passing the float operations as ordinary arguments. *)
 Require Import ExtrOcamlBasic.
 From Coq Require Import QArith.
-From SharkV Require Import ListAux C03Model C06Model C06ExtModel.
+From SharkV Require Import ListAux C03Model C06Model C06ExtModel C06Ctx.
 Extraction "c06_model.ml" Qred qsqrt thread_ranges one_eval one_grad two_eval two_grad add_reg add_reg_eval
   loss_eval loss_evald abs_eval zo_eval zov_eval disc_eval data_mean lin_bq lin_bq_eval minibatch
   ef_eval ef_evald wef_eval wef_evald ce_eval ce_evald
   ce_batch_eval ce_batch_evald cev_eval cev_evald huberA_eval huberA_evald absA_eval zow_eval
   net2_ef_eval net2_ef_evald net2_bq_eval
-  nauc_eval nauc_eval_vec seq_eval seq_evald nll_eval nll_evald.
+  nauc_eval nauc_eval_vec seq_eval seq_evald nll_eval nll_evald
+  ef_ctx_eval ef_ctx_evald net2_ef_ctx_eval net2_ef_ctx_evald nested_order.
